@@ -69,23 +69,24 @@ class BaseCompiler:
 
     def preprocess(self, ufo_or_ufos):
         self.logger.info("Pre-processing glyphs")
-        if self.skipExportGlyphs is None:
+        # the list taken from the UFO lib belongs to this source, not to the compiler
+        # (the same compiler object may be used for other sources afterwards)
+        skipExportGlyphs = self.skipExportGlyphs
+        if skipExportGlyphs is None:
             if isinstance(ufo_or_ufos, (list, tuple)):
-                self.skipExportGlyphs = set()
+                skipExportGlyphs = set()
                 for ufo in ufo_or_ufos:
-                    self.skipExportGlyphs.update(
-                        ufo.lib.get("public.skipExportGlyphs", [])
-                    )
+                    skipExportGlyphs.update(ufo.lib.get("public.skipExportGlyphs", []))
             else:
-                self.skipExportGlyphs = ufo_or_ufos.lib.get(
-                    "public.skipExportGlyphs", []
-                )
+                skipExportGlyphs = ufo_or_ufos.lib.get("public.skipExportGlyphs", [])
 
         callables = [self.preProcessorClass]
         if hasattr(self.preProcessorClass, "initDefaultFilters"):
             callables.append(self.preProcessorClass.initDefaultFilters)
 
         preprocessor_args = prune_unknown_kwargs(self.__dict__, *callables)
+        if "skipExportGlyphs" in preprocessor_args:
+            preprocessor_args["skipExportGlyphs"] = skipExportGlyphs
         # Preprocessors expect this parameter under a different name.
         if hasattr(self, "cubicConversionError"):
             preprocessor_args["conversionError"] = self.cubicConversionError
